@@ -302,7 +302,7 @@ let run_routerhist parts =
 
 (* ---------- kind: promote (round 2): the two-tier cache model Cache/CacheTier.v ---------- *)
 (* ops: s.<at>.<key>.<ttls>  r.<at>.<key>.<age ms>.<remain ms>.<ttls>  x.<at>.<key>  g.<at>.<key> *)
-type pop = { pk : char; pat : int; pkey : int; pttls : int64 list; page : int; premain : int }
+type pop = { pk : char; pat : int; pkey : int; pttls : int64 list; page : int; premain : int; prcode : int }
 
 let parse_pttls (s : string) : int64 list =
   if s = "x" then [] else List.map Int64.of_string (String.split_on_char '_' s)
@@ -310,29 +310,34 @@ let parse_pttls (s : string) : int64 list =
 let parse_pops (s : string) : pop list =
   List.map (fun tok ->
       match String.split_on_char '.' tok with
-      | [k; at; key] -> { pk = k.[0]; pat = int_of_string at; pkey = int_of_string key; pttls = []; page = 0; premain = 0 }
+      | [k; at; key] -> { pk = k.[0]; pat = int_of_string at; pkey = int_of_string key; pttls = []; page = 0; premain = 0; prcode = 0 }
       | [k; at; key; ttls] ->
-        { pk = k.[0]; pat = int_of_string at; pkey = int_of_string key; pttls = parse_pttls ttls; page = 0; premain = 0 }
+        { pk = k.[0]; pat = int_of_string at; pkey = int_of_string key; pttls = parse_pttls ttls; page = 0; premain = 0; prcode = 0 }
+      | [k; at; key; rc; ttls] ->      (* round 4: e.<at>.<key>.<rcode>.<ttls> = Store of an error response *)
+        { pk = k.[0]; pat = int_of_string at; pkey = int_of_string key; pttls = parse_pttls ttls; page = 0; premain = 0;
+          prcode = int_of_string rc }
       | [k; at; key; age; remain; ttls] ->
         { pk = k.[0]; pat = int_of_string at; pkey = int_of_string key; pttls = parse_pttls ttls;
-          page = int_of_string age; premain = int_of_string remain }
+          page = int_of_string age; premain = int_of_string remain; prcode = 0 }
       | _ -> failwith ("bad op " ^ tok)) (String.split_on_char ',' s)
 
 (* One run of the two-tier model: otter's ticker has phase [phase_ms]; the history starts [unix_ms] after a whole Unix
    second (the instants that travel through redis are cut to whole seconds); [prompt]: otter's cleanup collects an
    expired node of the key before every op / never. *)
-let promote_run (mx : z) (ops : pop list) (phase_ms : int) (unix_ms : int) (prompt : bool) : string list =
+let promote_run ?(hm = true) (mx : z) (ops : pop list) (phase_ms : int) (unix_ms : int) (prompt : bool) : string list =
   let t0_ms = 1_000_000 + unix_ms in
   let clock_at (ms : int) : int = 999 + (ms + 1000 - phase_ms) / 1000 in
   let st = ref (ct_init (n_of_int 990)) in
-  let do_ev ev = let (st', o) = ct_step mx !st ev in st := st'; o in
+  let do_ev ev = let (st', o) = ctc_step hm mx !st ev in st := st'; o in
   List.mapi (fun i op ->
       let t = z_ns_of_ms (t0_ms + op.pat) in
       let k = n_of_int op.pkey in
       ignore (do_ev (CtTick (n_of_int (clock_at op.pat))));
       if prompt then ignore (do_ev (CtCollect k));
       match op.pk with
-      | 's' -> ignore (do_ev (CtStore (t, z_of_int 1000, k, Some (c08_msg (i + 1) 0 false op.pttls), true))); "s"
+      | 's' | 'e' ->
+        ignore (do_ev (CtStore (t, z_of_int 1000, k, Some (c08_msg (i + 1) op.prcode false op.pttls), true)));
+        String.make 1 op.pk
       | 'r' ->
         let stored = z_ns_of_ms (t0_ms + op.pat - op.page) and expire = z_ns_of_ms (t0_ms + op.pat + op.premain) in
         ignore (do_ev (CtForeign (t, stored, expire, k, c08_msg (i + 1) 0 false op.pttls, false))); "r"
@@ -347,10 +352,11 @@ let run_promote parts =
   let f = fields parts in
   let mx = init_max_ttl (z_of_int64 (Int64.of_string (fld f "maxttl"))) in
   let ops = parse_pops (fld f "ops") in
+  let hm = (try fld f "mem" <> "0" with _ -> true) in
   let runs = ref [] in
-  for p = 0 to 19 do
+  for p = 0 to (if hm then 19 else 0) do        (* without a memory backend otter's ticker plays no part *)
     for u = 0 to 39 do
-      runs := promote_run mx ops (25 + 50 * p) (12 + 25 * u) false :: promote_run mx ops (25 + 50 * p) (12 + 25 * u) true :: !runs
+      runs := promote_run ~hm mx ops (25 + 50 * p) (12 + 25 * u) false :: promote_run ~hm mx ops (25 + 50 * p) (12 + 25 * u) true :: !runs
     done
   done;
   let toks = List.init (List.length ops) (fun i ->
@@ -360,6 +366,7 @@ let run_promote parts =
 
 let () =
   register "promote" run_promote;
+  register "redisneg" run_promote;
   register "routerhist" run_routerhist;
   register "policy" run_policy;
   register "policyspec" run_policyspec;
